@@ -161,6 +161,9 @@ type Exec struct {
 	loopCache map[*ssa.Function]*loopInfo
 	globalCells map[string]*Cell
 	BigWrites []BigWrite
+	axiomsDone bool
+	Axioms     []*Term
+	AxiomNames []string
 	resultMode bool
 	constSeen map[string]bool
 	Debug   bool
@@ -301,6 +304,12 @@ func (ex *Exec) symVal(st *State, name string, t types.Type, depth int) Val {
 			alias := sanitizeSym(name + "!ref!val")
 			ex.Defs = append(ex.Defs, Def{Name: alias, S: IntSort, T: Select(Sym("heap0", ArraySort(IntSort, IntSort)), r)})
 			ex.Inputs = append(ex.Inputs, alias)
+			if uf, ok := ex.P.CS.UFuns["words"]; ok {
+				ex.useUFun(uf)
+				walias := sanitizeSym(name + "!ref!words")
+				ex.Defs = append(ex.Defs, Def{Name: walias, S: IntSort, T: App("words", IntSort, Select(Sym("heap0", ArraySort(IntSort, IntSort)), r))})
+				ex.Inputs = append(ex.Inputs, walias)
+			}
 		}
 		return PtrV{K: PBig, Ref: r, Elem: t.(*types.Pointer).Elem()}
 	}
@@ -670,8 +679,22 @@ func (ex *Exec) globalCell(st *State, name string, t types.Type) *Cell {
 		} else {
 			// symbolic but fixed (same symbol names on every path: created via deterministic names)
 			save := ex.Inputs
-			st.Cells[c] = ex.symValNamed(st, "g!"+shortName(name), t)
+			gv := ex.symValNamed(st, "g!"+shortName(name), t)
 			ex.Inputs = save
+			// structs of integers whose field values were read from the real initialisers
+			if sv, ok := gv.(StructV); ok {
+				stt := sv.Typ.Underlying().(*types.Struct)
+				nf := append([]Val{}, sv.F...)
+				for i := 0; i < stt.NumFields(); i++ {
+					if cv, ok := ex.P.Consts[name+"."+stt.Field(i).Name()]; ok {
+						if bi, ok := new(big.Int).SetString(cv, 10); ok {
+							nf[i] = Scalar{ex.intConst(bi, stt.Field(i).Type())}
+						}
+					}
+				}
+				gv = StructV{Typ: sv.Typ, F: nf}
+			}
+			st.Cells[c] = gv
 		}
 	}
 	return c
@@ -981,6 +1004,49 @@ func (ex *Exec) step(st *State, fr *Frame, ins ssa.Instruction) bool {
 		return ex.doReturn(st, fr, rets)
 	case *ssa.Panic:
 		v := ex.val(fr, x.X, st)
+		if iv, ok := v.(IfaceV); ok && iv.Conc == nil && iv.Sym != nil {
+			// panic with a value of symbolic dynamic type (re-panic of an error returned by a callee):
+			// one path per failure kind the contract mentions, and one for "anything else"
+			var cands []string
+			seen := map[string]bool{}
+			for _, f := range ex.C.Fails {
+				for _, k := range f.Kinds {
+					if !seen[k] {
+						seen[k] = true
+						cands = append(cands, k)
+					}
+				}
+			}
+			for _, k := range ex.C.Env {
+				if !seen[k] {
+					seen[k] = true
+					cands = append(cands, k)
+				}
+			}
+			var none []*Term
+			for _, k := range cands {
+				var alts []*Term
+				for _, t := range ex.P.named {
+					tt := t
+					if p, isP := tt.(*types.Pointer); isP {
+						tt = p.Elem()
+					}
+					if n, isN := tt.(*types.Named); isN && n.Obj().Name() == k {
+						alts = append(alts, Eq(iv.Kind, IntC(int64(ex.P.TypeTag(t)))))
+					}
+				}
+				cond := Or(alts...)
+				if cond.IsFalse() {
+					continue
+				}
+				none = append(none, Not(cond))
+				ps := st.clone()
+				ps.assume(cond)
+				ex.doPanic(ps, &PanicInfo{Kind: k, Val: v})
+			}
+			st.assume(And(none...))
+			return ex.doPanic(st, &PanicInfo{Kind: "?", Val: v})
+		}
 		return ex.doPanic(st, &PanicInfo{Kind: ex.panicKind(v), Val: v})
 	case *ssa.MakeMap, *ssa.MapUpdate, *ssa.Lookup:
 		return ex.mapInstr(st, fr, ins)
